@@ -45,3 +45,5 @@ done
 git checkout -q -- . ; git clean -fdq -- src tests
 find /verif/replays -name '*.json' -delete
 rm -f /dev/shm/*.$$.log
+# rebuild the simulator from the restored tree, so that a later direct use of the binary is not a mutant
+(cd /verif/sim && CARGO_NET_OFFLINE=true cargo build --release --offline >/dev/null 2>&1)
